@@ -483,8 +483,20 @@ func (e *Exec) callContract(st *State, fr *Frame, sp *FnSpec, fn *ssa.Function, 
 	}
 	for _, a := range sp.Assigns {
 		ae := e.resolveAssign(pre, fn, params, a)
-		// the callee's frame must be inside the caller's (its ghost call counters are its own: they are only made
-		// arbitrary here, so that what its postconditions say about them constrains nothing of the caller's)
+		// the callee's frame must be inside the caller's (its ghost call counters are its own: the ones IT counts are
+		// only made arbitrary here, so that what its postconditions say about them constrains nothing of the caller's;
+		// counters of other callees, which the caller may be keeping, are not touched)
+		if a == "ghost.calls" {
+			var only []string
+			for n := range sp.CountCalls {
+				only = append(only, "ghost:calls."+n, "ghost:calls.last."+n)
+				for _, w := range []int{8, 16, 32, 64} {
+					only = append(only, fmt.Sprintf("ghost:calls.lastv%d.%s", w, n))
+				}
+			}
+			sort.Strings(only)
+			ae.only = only
+		}
 		if ae.ref != nil && a != "ghost.calls" {
 			if len(ae.only) > 0 {
 				for _, k := range ae.only {
